@@ -103,6 +103,31 @@ pub mod verif {
 		pub tables: Vec<TableDump>,
 	}
 
+	/// Read-only dump of the node forest of one multitree column of a quiescent handle (C10 /
+	/// C14): what the reference counts are supposed to count.
+	#[derive(Debug, Clone, Default)]
+	pub struct MultiTreeDump {
+		/// The column has a ref-count table (`multitree && !append_only`).
+		pub has_ref_count_table: bool,
+		/// Column option `ref_counted` (root entries carry a count).
+		pub ref_counted: bool,
+		/// Column option `append_only`.
+		pub append_only: bool,
+		/// Root entries: (hashed key recovered from index entry + stored key tail, address of
+		/// the value slot, count stored with the value (1 without `ref_counted`), children;
+		/// `None` = the stored value does not decode as a node).
+		#[allow(clippy::type_complexity)]
+		pub roots: Vec<(crate::Key, u64, u32, Option<Vec<u64>>)>,
+		/// Live head slots no index entry points to: (node address, children; `None` = the slot
+		/// is unreadable as a keyless value or does not decode as a node).
+		pub nodes: Vec<(u64, Option<Vec<u64>>)>,
+		/// Ref-count tables in search order (current table, then the reindex queue front to
+		/// back): (index bits, non-empty entries as (node address, count)).
+		pub ref_count_tables: Vec<(u8, Vec<(u64, u64)>)>,
+		/// The in-memory ref-count cache, sorted by address (`None`: the column has none).
+		pub ref_count_cache: Option<Vec<(u64, u64)>>,
+	}
+
 	/// One value table. `slots` covers every index in `1..filled`.
 	#[derive(Debug, Clone, Default)]
 	pub struct TableDump {
